@@ -246,10 +246,10 @@ fn c07_probe_restores_invariant_known() {
 
 // ---------- the Context a Filtered layer hands to its wrapped layer carries the layer's own filter id:
 // a span this filter rejected is invisible to the wrapped layer in EVERY callback (lookup, scope, parent)
-static PROBE_CALLS: VAtomicUsize = VAtomicUsize::new(0);
-static PROBE_SAW_REJECTED: VAtomicUsize = VAtomicUsize::new(0);
-static PROBE_SAW_ACCEPTED: VAtomicUsize = VAtomicUsize::new(0);
-static PROBE_PARENT_OF_3: VAtomicUsize = VAtomicUsize::new(99);
+vstatic!(PROBE_CALLS: VAtomicUsize = VAtomicUsize::new(0));
+vstatic!(PROBE_SAW_REJECTED: VAtomicUsize = VAtomicUsize::new(0));
+vstatic!(PROBE_SAW_ACCEPTED: VAtomicUsize = VAtomicUsize::new(0));
+vstatic!(PROBE_PARENT_OF_3: VAtomicUsize = VAtomicUsize::new(99));
 struct VProbe;
 fn probe(ctx: &Context<'_, VRoot>) {
     PROBE_CALLS.fetch_add(1, VSeq);
